@@ -16,7 +16,7 @@ def block_rules(chk, repo, rid, which=('qr',), text=None):
     for w in which:
         q, kind = names[w]
         fi, ba, items = run_block(chk, repo, rid, q, kind, single_rule=rid)
-        bounds_rule(chk, repo, rid, fi)
+        bounds_rule(chk, repo, rid, fi, getattr(ba, 'Dname', 'D'))
         n += len(items)
     chk.floor(rid, n, 40 * len(which), hard_min=20)
     return n
